@@ -907,16 +907,25 @@ def compile_comprehension(compiler, expr, root, parts, final):
                 .body[0]
                 .value
             )
+        def compile_value(model, result=None):
+            # A form like `(do)` compiles to nothing at all. Use an
+            # explicit `None`, so the result can stand for a value (and
+            # a source position) below.
+            result = compiler.compile(model) if result is None else result
+            if result.expr is None and not result.stmts:
+                result += asty.Constant(model, value=None)
+            return result
+
         new_parts = []
         for i, p in enumerate(parts):
             if p.tag in ("if", "do"):
-                tag_value = compiler.compile(p.value)
+                tag_value = compile_value(p.value)
             else:
                 tag_value = [
                     compiler._storeize(p.value[0], compiler.compile(p.value[0])),
-                    first_iterable
-                    if i == 0 and first_iterable is not None
-                    else compiler.compile(p.value[1]),
+                    compile_value(
+                        p.value[1],
+                        first_iterable if i == 0 else None),
                 ]
                 if not is_for:
                     scope.iterator(tag_value[0])
@@ -936,11 +945,11 @@ def compile_comprehension(compiler, expr, root, parts, final):
             key = elt = None
             if node_class is asty.DictComp:
                 if dict_unpack:
-                    key = compiler.compile(final[1])
+                    key = compile_value(final[1])
                 else:
-                    key, elt = map(compiler.compile, final)
+                    key, elt = map(compile_value, final)
             else:
-                elt = compiler.compile(final)
+                elt = compile_value(final)
 
         ends_with_unpack = not is_for and (dict_unpack or (elt and isinstance(elt.expr, ast.Starred)))
 
@@ -1140,7 +1149,7 @@ def compile_comprehension(compiler, expr, root, parts, final):
                 generators.append(
                     ast.comprehension(
                         target=v[0],
-                        iter=v[1].expr,
+                        iter=v[1].force_expr,
                         ifs=[],
                         is_async=int(tagname == "afor"),
                     )
@@ -1149,20 +1158,20 @@ def compile_comprehension(compiler, expr, root, parts, final):
                 generators.append(
                     ast.comprehension(
                         target=v[0],
-                        iter=asty.Tuple(v[1], elts=[v[1].expr], ctx=ast.Load()),
+                        iter=asty.Tuple(v[1], elts=[v[1].force_expr], ctx=ast.Load()),
                         ifs=[],
                         is_async=0,
                     )
                 )
             elif tagname == "if":
-                generators[-1].ifs.append(v.expr)
+                generators[-1].ifs.append(v.force_expr)
             else:
                 raise ValueError("can't happen")
         if node_class is asty.DictComp:
             return asty.DictComp(
-                expr, key=key.expr, value=(elt and elt.expr), generators=generators
+                expr, key=key.force_expr, value=(elt and elt.force_expr), generators=generators
             )
-        return node_class(expr, elt=elt.expr, generators=generators)
+        return node_class(expr, elt=elt.force_expr, generators=generators)
 
 
 # ------------------------------------------------
